@@ -289,7 +289,7 @@ func mkc(sym, form string) commoditySpec { return commoditySpec{sym, form} }
 
 func (g *Gen) commodity() commoditySpec {
 	c := Pick(g.r, plainCommodities)
-	switch g.knob("cmdty", "sym-left", "sym-right", "code-left", "code-left-nospace", "lower-right", "quoted-right", "quoted-left", "none", "bmp-right") {
+	switch g.knob("cmdty", "sym-left", "sym-right", "code-left", "code-left-nospace", "lower-right", "quoted-right", "quoted-left", "none", "bmp-right", "quoted-symbols") {
 	case "sym-left":
 		c = commoditySpec{Pick(g.r, []string{"$", "€", "£", "¥", "₽", "₴"}), "sym-left"}
 	case "sym-right":
@@ -304,6 +304,9 @@ func (g *Gen) commodity() commoditySpec {
 		c = commoditySpec{Pick(g.r, []string{"green apples", "AAPL 2024", "no-1"}), "quoted-right"}
 	case "quoted-left":
 		c = commoditySpec{Pick(g.r, []string{"green apples", "X 1"}), "quoted-left"}
+	case "quoted-symbols":
+		// letters plus characters of the Unicode symbol classes: no blank, digit or punctuation
+		c = commoditySpec{Pick(g.r, []string{"CL=F", "A+B", "X<Y", "^GSPC", "a~b", "P|Q", "😀C", "x@y"}), "quoted-right"}
 	case "none":
 		c = mkc("", "none")
 	case "code-digits":
@@ -609,7 +612,7 @@ func (g *Gen) tx() *MTx {
 	case "bang":
 		t.Status = "!"
 	}
-	switch g.knob("code", "plain", "space", "punct") {
+	switch g.knob("code", "plain", "space", "punct", "nonascii") {
 	case "plain":
 		s := Pick(g.r, []string{"123", "A1", "chk42"})
 		t.Code = &s
@@ -618,6 +621,9 @@ func (g *Gen) tx() *MTx {
 		t.Code = &s
 	case "punct":
 		s := Pick(g.r, []string{"#12", "x-1", "INV-2024#7"})
+		t.Code = &s
+	case "nonascii":
+		s := Pick(g.r, []string{"🧾42", "чек7", "A😀"})
 		t.Code = &s
 	}
 	switch g.knob("hdr", "nodesc", "payee-note", "payee-note-nospace") {
